@@ -14,8 +14,10 @@ from vlib.common import Inconclusive, VERIF, REPO, log
 QUICK_CFGS = ["11111", "00000", "10000", "01000", "00100", "00010", "00001", "11101"]
 ALL_CFGS = ["%s" % format(i, "05b") for i in range(32)]
 
-QUICK_BOUNDS = {"forks": 10, "steps": 4000, "paths": 200, "depth": 2, "seconds": 20}
-THOROUGH_BOUNDS = {"forks": 18, "steps": 20000, "paths": 1500, "depth": 4, "seconds": 240}
+QUICK_BOUNDS = {"forks": 10, "steps": 4000, "paths": 200, "depth": 2, "seconds": 20,
+                "main_bounds": {"forks": 14, "steps": 40000, "paths": 2000, "depth": 6, "seconds": 150}}
+THOROUGH_BOUNDS = {"forks": 18, "steps": 20000, "paths": 1500, "depth": 4, "seconds": 240,
+                   "main_bounds": {"forks": 18, "steps": 100000, "paths": 6000, "depth": 8, "seconds": 600}}
 
 
 def corpus(sc, tier):
@@ -88,8 +90,13 @@ def _compare_one(job):
         names = [n for n in names if '"op": "DIV"' in json.dumps(A.fns[n]["body"]) or '"op": "MOD"' in json.dumps(A.fns[n]["body"])]
     for n in names:
         t0 = time.time()
+        # with inlining, small corpus functions disappear into `main`: the entry points get a deeper budget so that the
+        # inlined code is still compared (with the per-function budget every path of main ended at the call-depth bound)
+        b_ = bounds
+        if mode == "enter" and n in B.mains and isinstance(bounds, dict) and bounds.get("main_bounds") and not mains_only:
+            b_ = bounds["main_bounds"]
         try:
-            r = irsym.compare_function(n, A, B, bounds, enter=(mode == "enter"), ignore_type_names=ignore_types, loose_refs=loose,
+            r = irsym.compare_function(n, A, B, b_, enter=(mode == "enter"), ignore_type_names=ignore_types, loose_refs=loose,
                                        ref_div_traps=divtraps)
         except irsym.Unsupported as e:
             r = {"status": "skipped", "why": str(e)}
